@@ -357,6 +357,57 @@ def gen_recipes(ctx):
         R.append([G.gen_create(rng, "a.cool")])
     for _ in range(10 * mul):
         R.append([G.gen_create(rng, "a.cool", group=rng.choice(["x", "x/y", "resolutions/5"]), big=True)])
+    # --- one-pass creation with ensure_sorted=True (validate_pixels sorts every chunk): chunks partition the
+    #     row range and arrive (a) shuffled, (b) in row order with shuffled column ids, (c) sorted; both APIs
+    W5 = [[10, 10, 10], [10, 10]]
+    R.append([{"op": "create", "out": "es.cool", "group": "", "append": False, "widths": W5, "symm": True, "input": "ordered",
+               "chunks": [[[0, 3, 1], [0, 1, 2], [1, 4, 3], [1, 2, 4]], [], [[3, 4, 5], [3, 3, 6]]],
+               "ensure_sorted": True, "api": "create", "disorder": "cols"}])
+    for how in ("shuffle", "cols", "sorted"):
+        for api in ("create_cooler", "create"):
+            for symm in (True, False):
+                for _ in range(2 * mul):
+                    R.append([G.gen_create_ensure_sorted(rng, "es.cool", how, api, symm=symm)])
+    # --- producer options with valid input (each must leave a valid collection)
+    def with_opts(step, **opts):
+        st = dict(step)
+        st["opts"] = {**(st.get("opts") or {}), **opts}
+        return st
+    OPTS = [
+        {"boundscheck": False}, {"dupcheck": False}, {"triucheck": False},
+        {"boundscheck": False, "dupcheck": False, "triucheck": False},
+        {"h5opts": {"compression": None}}, {"h5opts": {"compression": "lzf"}}, {"h5opts": {"shuffle": False}},
+        {"h5opts": {"chunks": [1]}}, {"h5opts": {"compression": "gzip", "compression_opts": 1, "fletcher32": True}},
+        {"dtypes": {"count": "int64"}}, {"dtypes": {"count": "int16"}}, {"dtypes": {"count": "float64"}},
+        {"dtypes": {"bin1_id": "int32", "bin2_id": "int32"}},
+        {"columns": ["count", "w"], "dtypes": {"w": "int64"}}, {"columns": ["w", "count"], "dtypes": {"w": "int32"}},
+        {"assembly": "hg19", "metadata": {"a": [1, 2], "b": "x"}},
+    ]
+    for k_, opts in enumerate(OPTS):
+        kinds = ["frame", "ordered", "unordered"] if not thorough else ["frame", "dict", "ordered", "unordered", "ordered", "unordered"]
+        for kind in kinds:
+            st = G.gen_create(rng, "o.cool", kind=kind, symm=(k_ + len(kind)) % 3 != 0)
+            if "triucheck" in opts and not st["symm"]:
+                st["symm"] = True
+                st["chunks"] = [[r for r in ch if r[0] <= r[1]] for ch in st["chunks"]]
+            R.append([with_opts(st, **opts)])
+    # unordered-only knobs
+    for opts in ({"temp_dir": "-"}, {"delete_temp": False}):
+        R.append([with_opts(G.gen_create(rng, "o.cool", kind="unordered"), **opts)])
+    # extra value column carried through merge / coarsen / zoomify (columns=, dtypes=)
+    for _ in range(3 * mul):
+        widths = G.rand_widths(rng, fixed=True, maxbins=7)
+        b = fixed_size(widths) or 1
+        co = {"columns": ["count", "w"], "dtypes": {"w": "int64"}}
+        s1 = with_opts(G.gen_create(rng, "x.cool", widths=widths, symm=True, kind="frame"), **co)
+        s2 = with_opts(G.gen_create(rng, "y.cool", widths=widths, symm=True, kind="ordered"), **co)
+        s3 = {"op": "merge", "out": "m.cool", "group": "", "inputs": [["x.cool", ""], ["y.cool", ""]], "mergebuf": rng.choice([1, 3, 100]),
+              "opts": {"columns": ["count", "w"]}}
+        s4 = {"op": "coarsen", "out": "c.cool", "group": "", "in": ["m.cool", ""], "factor": 2, "chunksize": rng.choice([1, 3, 100]),
+              "opts": {"columns": ["count", "w"], "dtypes": {"count": "int64"}}}
+        s5 = {"op": "zoomify", "out": "z.mcool", "inputs": [["x.cool", ""]], "resolutions": [b, 2 * b, 4 * b], "base_resolutions": [b],
+              "chunksize": rng.choice([2, 100]), "opts": {"columns": ["count", "w"]}}
+        R.append([s1, s2, s3, s4, s5])
     for _ in range(18 * mul):
         R.append([G.gen_load(rng, "l.cool")])
     for _ in range(18 * mul):
@@ -491,6 +542,11 @@ def create_model_expr(step):
     chunks = step["chunks"]
     if step["input"] in ("frame", "dict"):
         chunks = [sorted(chunks[0], key=lambda r: (r[0], r[1]))]
+    elif step.get("ensure_sorted"):
+        # validate_pixels sorts every chunk by (bin1_id, bin2_id) before it is written
+        chunks = [sorted(ch, key=lambda r: (r[0], r[1])) for ch in chunks]
+    if str(((step.get("opts") or {}).get("dtypes") or {}).get("count", "")).startswith("float"):
+        return None
     if sum(len(ch) for ch in chunks) > 400:
         return None
     chroms = [ci for ci, ws in enumerate(step["widths"]) for _ in ws]
